@@ -582,19 +582,149 @@ func outputRoutines(c *Ctx, run *ssa.Function) []listRoutine {
 		if !ok {
 			return
 		}
-		h := call.Common().StaticCallee()
-		if h == nil || len(h.Blocks) == 0 || h.Pkg == nil || !strings.HasSuffix(h.Pkg.Pkg.Path(), "internal/cli") {
-			return
+		var hs []*ssa.Function
+		if h := call.Common().StaticCallee(); h != nil {
+			hs = []*ssa.Function{h}
+		} else if !call.Common().IsInvoke() {
+			// a printer picked from a table of functions: every function the
+			// call graph resolves the value to
+			hs = dynamicCallees(c, call)
 		}
-		for i, a := range call.Common().Args {
-			if srSlice(a.Type()) && i < len(h.Params) {
-				top := listRoutine{fn: h, param: h.Params[i], call: call, arg: a, chain: []*ssa.Call{call}}
-				out = append(out, top)
-				out = append(out, nestedRoutines(top, 0)...)
+		for _, h := range hs {
+			if h == nil || len(h.Blocks) == 0 || h.Pkg == nil || !strings.HasSuffix(h.Pkg.Pkg.Path(), "internal/cli") {
+				continue
+			}
+			for i, a := range call.Common().Args {
+				if srSlice(a.Type()) && i < len(h.Params) {
+					top := listRoutine{fn: h, param: h.Params[i], call: call, arg: a, chain: []*ssa.Call{call}}
+					out = append(out, top)
+					out = append(out, nestedRoutines(top, 0)...)
+				}
 			}
 		}
 	})
 	return out
+}
+
+// dynamicCallees: the functions a call through a function value can reach,
+// as resolved by the call graph (sorted by name).
+func dynamicCallees(c *Ctx, call *ssa.Call) []*ssa.Function {
+	node := c.P.CallGraph().Nodes[call.Parent()]
+	if node == nil {
+		return nil
+	}
+	seen := map[*ssa.Function]bool{}
+	var out []*ssa.Function
+	for _, e := range node.Out {
+		if e.Site == ssa.CallInstruction(call) && e.Callee != nil && e.Callee.Func != nil && !seen[e.Callee.Func] {
+			seen[e.Callee.Func] = true
+			out = append(out, e.Callee.Func)
+		}
+	}
+	sort.Slice(out, func(i, j int) bool { return out[i].String() < out[j].String() })
+	return out
+}
+
+// funcTableKeys: when the callee of call is picked from a package-level map of
+// functions keyed by constant strings (v, ok := table[k]; if !ok { v = dflt }),
+// the keys under which fn is registered, and whether fn is also the default
+// taken for unlisted keys. ok is false when the callee is not such a pick.
+func funcTableKeys(call *ssa.Call, fn *ssa.Function) (keys []string, isDefault, ok bool) {
+	var g *ssa.Global
+	var walk func(v ssa.Value, d int) bool
+	walk = func(v ssa.Value, d int) bool {
+		if d > 6 {
+			return false
+		}
+		switch x := v.(type) {
+		case *ssa.Phi:
+			for _, e := range x.Edges {
+				if !walk(e, d+1) {
+					return false
+				}
+			}
+			return true
+		case *ssa.Extract:
+			return x.Index == 0 && walk(x.Tuple, d+1)
+		case *ssa.Lookup:
+			if u, isLoad := x.X.(*ssa.UnOp); isLoad && u.Op == token.MUL {
+				if gl, isG := u.X.(*ssa.Global); isG && (g == nil || g == gl) {
+					g = gl
+					return true
+				}
+			}
+			return false
+		case *ssa.Function:
+			if x == fn {
+				isDefault = true
+			}
+			return true
+		case *ssa.ChangeType:
+			return walk(x.X, d+1)
+		case *ssa.UnOp:
+			// the picked function held in a local variable
+			if al, isAl := x.X.(*ssa.Alloc); isAl && x.Op == token.MUL {
+				n := 0
+				for _, ref := range *al.Referrers() {
+					if st, isSt := ref.(*ssa.Store); isSt && st.Addr == ssa.Value(al) {
+						n++
+						if !walk(st.Val, d+1) {
+							return false
+						}
+					}
+				}
+				return n > 0
+			}
+		}
+		return false
+	}
+	if call.Common().IsInvoke() || call.Common().StaticCallee() != nil || !walk(call.Common().Value, 0) || g == nil {
+		return nil, false, false
+	}
+	// the table's initialiser: one store of a map literal in init
+	var mk *ssa.MakeMap
+	nStores := 0
+	for _, mem := range g.Pkg.Members {
+		f, isFn := mem.(*ssa.Function)
+		if !isFn {
+			continue
+		}
+		ssau.ForEachInstr(f, true, func(in ssa.Instruction) {
+			switch x := in.(type) {
+			case *ssa.Store:
+				if x.Addr == ssa.Value(g) {
+					nStores++
+					mk, _ = x.Val.(*ssa.MakeMap)
+				}
+			case *ssa.MapUpdate:
+				if u, isLoad := x.Map.(*ssa.UnOp); isLoad && u.X == ssa.Value(g) {
+					nStores++ // the table is changed at run time
+				}
+			}
+		})
+	}
+	if mk == nil || nStores != 1 {
+		return nil, false, false
+	}
+	for _, ref := range *mk.Referrers() {
+		mu, isMU := ref.(*ssa.MapUpdate)
+		if !isMU || mu.Map != ssa.Value(mk) {
+			continue
+		}
+		k, isC := ssau.ConstString(mu.Key)
+		if !isC {
+			return nil, false, false
+		}
+		v := mu.Value
+		if ct, isCT := v.(*ssa.ChangeType); isCT {
+			v = ct.X
+		}
+		if f, isF := v.(*ssa.Function); isF && f == fn {
+			keys = append(keys, k)
+		}
+	}
+	sort.Strings(keys)
+	return keys, isDefault, true
 }
 
 // nestedRoutines: routines of package cli that rt hands its own list on to
